@@ -3,6 +3,7 @@
 From Coq Require Import List NArith ZArith.
 From Coq.Strings Require Import Byte.
 From SP Require Import Bytes Params Msgpack Crypto Errors Packets Chunker Rand Sign Verify SignProofs SignAuthProofs SignAuthLocated.
+From SP Require Import BaseX Encodings Armor ArmorProofs ArmoredForms.
 From SP Require Import Nonce Packets Signcrypt GoLang GoAst GoAstProofs GoAstProofs2.
 From Coq Require String.
 Import String.StringSyntax.
@@ -67,6 +68,16 @@ Theorem C07_source_detachedSignatureInputFromHash (c : crypto) (h : bytes) :
   = ORet [VBytes (detached_sig_input_from_hash h)].
 Proof. exact (go_detachedSignatureInputFromHash c h). Qed.
 
+(* BINARY AND ARMORED FORMS AGREE: the armored all-at-once entry point is the binary one composed
+   with dearmoring; on the armored form of ANY binary message (genuine or not) it returns exactly
+   what the binary entry point returns on that message, plus the brand. *)
+Theorem C07_armored_form_agrees (c : crypto) (vd : validator) (kr : sigring) (msg sigfile brand : bytes) :
+  brand_ok brand ->
+  dearmor62_verify_detached c vd kr msg (armor62_seal sigfile mt_detached brand) =
+  bind (verify_detached c vd kr msg sigfile) (fun pk => Ok (pk, brand)).
+Proof. exact (armored_verify_detached_agrees c vd kr msg sigfile brand). Qed.
+
+Print Assumptions C07_armored_form_agrees.
 Print Assumptions C07_source_detachedSignatureInput.
 Print Assumptions C07_source_detachedSignatureInputFromHash.
 Print Assumptions C07_authentic.
